@@ -1,4 +1,3 @@
-        requires instr >> 12u16 != 8,
         ensures
             match step_spec(view(*old(self)), instr, features::stack_spec()) {
                 Step::Next(s) => mstate_eq(view(*final(self)), s),
